@@ -422,6 +422,8 @@ pub enum AEv {
     PendingWakeNow,
     /// return Pending; the wake is delivered by the executor's next turn
     PendingWakeLater,
+    /// fail the read with a hard error of this kind index (see `FAULT_KINDS`); nothing is transferred
+    Fail(u8),
 }
 
 #[derive(Clone, Debug, PartialEq, Eq, Default)]
@@ -438,6 +440,7 @@ impl AScript {
                 AEv::Ready(k) => json!(k),
                 AEv::PendingWakeNow => json!("pending-now"),
                 AEv::PendingWakeLater => json!("pending-later"),
+                AEv::Fail(k) => json!({"fail": k}),
             }).collect::<Vec<_>>(),
             "rest": self.rest,
         })
@@ -449,6 +452,7 @@ impl AScript {
                 J::Number(n) => AEv::Ready(n.as_u64().unwrap_or(1) as usize),
                 J::String(s) if s == "pending-now" => AEv::PendingWakeNow,
                 J::String(s) if s == "pending-later" => AEv::PendingWakeLater,
+                J::Object(o) if o.contains_key("fail") => AEv::Fail(o["fail"].as_u64().unwrap_or(0) as u8),
                 _ => return Err("ascript event".into()),
             });
         }
@@ -467,6 +471,8 @@ pub struct SimAsyncRead {
     pub deferred: Arc<DeferredWakes>,
     pub end_reads: usize,
     pub split_sizes: Vec<usize>,
+    /// (bytes delivered before, token) of every injected hard error that was actually returned
+    pub failures: Vec<(usize, u64)>,
 }
 
 #[derive(Default)]
@@ -476,7 +482,7 @@ pub struct DeferredWakes {
 
 impl SimAsyncRead {
     pub fn new(data: Arc<Vec<u8>>, script: AScript, deferred: Arc<DeferredWakes>) -> Self {
-        SimAsyncRead { data, pos: 0, script, idx: 0, polls: 0, reads: 0, pendings: 0, deferred, end_reads: 0, split_sizes: Vec::new() }
+        SimAsyncRead { data, pos: 0, script, idx: 0, polls: 0, reads: 0, pendings: 0, deferred, end_reads: 0, split_sizes: Vec::new(), failures: Vec::new() }
     }
 }
 
@@ -500,6 +506,12 @@ impl futures::AsyncRead for SimAsyncRead {
                 self.pendings += 1;
                 self.deferred.wakers.lock().unwrap().push(cx.waker().clone());
                 Poll::Pending
+            }
+            AEv::Fail(k) => {
+                let token = self.failures.len() as u64 + 1;
+                let at = self.pos;
+                self.failures.push((at, token));
+                Poll::Ready(Err(sim_error(FAULT_KINDS[k as usize % FAULT_KINDS.len()], token)))
             }
             AEv::Ready(k) => {
                 self.reads += 1;
